@@ -22,6 +22,9 @@ THEOREMS = [
     "C20.conservative_object",
     "C20.conservative_name",
     "C20.conservative",
+    "C20.conservative_name_table",
+    "C20.conservative_table",
+    "Lemmas.Filter.diffCore_filter_key",
     "Lemmas.Filter.candidates_desc",
     "Lemmas.Filter.candidates_in",
 ]
